@@ -230,13 +230,13 @@ static size_t rs_dump(const ref_state *r, char *buf, size_t n) {
 }
 
 /* ================================================================= driving the library */
-typedef enum { A_UP, A_SPEED, A_FUNC, A_POINT, A_SIGNAL, A_CSDRIVE, A_CSACC } akind_t;
+typedef enum { A_UP, A_SPEED, A_FUNC, A_POINT, A_SIGNAL, A_CSDRIVE, A_CSACC, A_LOSE, A_TAKE } akind_t;
 /* one action: an uplink message from board `node` (-1: from an address that is not on the bus / not configured) or a user command */
 typedef struct { akind_t kind; int node; uint8_t type; uint8_t d[48]; int dl; const char *s1, *s2; int i1; } act_t;
 
 static const char *tname(int kind, int type) {
 	switch (kind) { case A_SPEED: return "bidib_set_train_speed"; case A_FUNC: return "bidib_set_train_peripheral"; case A_POINT: return "bidib_switch_point"; case A_SIGNAL: return "bidib_set_signal";
-	case A_CSDRIVE: return "bidib_send_cs_drive"; case A_CSACC: return "bidib_send_cs_accessory"; default: break; }
+	case A_CSDRIVE: return "bidib_send_cs_drive"; case A_CSACC: return "bidib_send_cs_accessory"; case A_LOSE: return "MSG_NODE_LOST"; case A_TAKE: return "MSG_NODE_NEW"; default: break; }
 	switch (type) {
 #define T(x) case x: return #x;
 	T(MSG_BM_OCC) T(MSG_BM_FREE) T(MSG_BM_MULTIPLE) T(MSG_BM_ADDRESS) T(MSG_BM_CONFIDENCE) T(MSG_BM_CURRENT) T(MSG_BM_SPEED) T(MSG_BM_DYN_STATE) T(MSG_BOOST_STAT) T(MSG_BOOST_DIAGNOSTIC)
@@ -288,6 +288,7 @@ static int compare(const char *tn, const char *what) {
 	res_violation(cls, "%s: library reports [%.*s] reference (fold of the messages per specification) [%.*s]", what, ll, LIBD + s, rl, REFD + s);
 	return 1;
 }
+static uint8_t BADDR[CM_MAXB][4];     /* the address each board has, or had when it was lost (the sender of a message is an ADDRESS) */
 static void begin_normal(void) {
 	hx_child_begin(NULL, 0, 0, NULL, 0, 0);
 	if (getenv("VERIF_LOG")) env_log_to_stderr = 1;
@@ -295,6 +296,7 @@ static void begin_normal(void) {
 	if (hx_start_normal(0)) res_infra("normal start failed");
 	hx_quiesce(); bidib_flush(); hx_quiesce(); drain();
 	hook_on = 1; rs_init(&R, &M);
+	for (int b = 0; b < M.nb; b++) cm_board_addr(&M, b, BADDR[b]);
 }
 static const uint8_t UNKNOWN_NODE[4] = {7, 0, 0, 0};
 /* returns 1 on mismatch */
@@ -303,8 +305,16 @@ static int do_act(const act_t *a, const char *what) {
 	cur_form = "";
 	if (a->kind == A_UP && a->type == MSG_BOOST_DIAGNOSTIC) { cur_form = a->dl == 0 ? "empty-list" : "no-value-equals-a-key-code"; for (int i = 1; i < a->dl; i += 2) if (a->d[i] <= 2) cur_form = "value-equals-a-key-code"; }
 	switch (a->kind) {
+	case A_LOSE: { int b = a->node; uint8_t d[9]; if (!cm_board_connected(&M, b)) break;
+		SB.n[M.b[b].sbnode].present = 0; M.b[b].present = 0; d[0] = ++SB.n[0].tab_version; d[1] = M.b[b].local; memcpy(d + 2, M.b[b].uid, 7); sb_send(0, MSG_NODE_LOST, d, 9); break; }
+	case A_TAKE: { int b = a->node, from = a->i1; uint8_t d[9]; if (cm_board_connected(&M, b) || cm_board_connected(&M, from)) break;
+		M.b[b].local = M.b[from].local; M.b[b].present = 1; M.b[b].sbnode = sb_add_node(0, M.b[b].local, M.b[b].uid); memcpy(BADDR[b], BADDR[from], 4);
+		d[0] = ++SB.n[0].tab_version; d[1] = M.b[b].local; memcpy(d + 2, M.b[b].uid, 7); sb_send(0, MSG_NODE_NEW, d, 9); break; }
 	case A_UP:
-		if (a->node >= 0) { rs_apply(&R, a->node, a->type, a->d, a->dl);
+		if (a->node >= 0 && !cm_board_connected(&M, a->node)) {      /* the board is gone: what arrives from its old address belongs to whoever sits there now */
+			int owner = -1; for (int b = 0; b < M.nb; b++) if (cm_board_connected(&M, b) && !memcmp(BADDR[b], BADDR[a->node], 4)) owner = b;
+			rs_apply(&R, owner, a->type, a->d, a->dl); sb_send_from(BADDR[a->node], 0, a->type, a->d, a->dl); }
+		else if (a->node >= 0) { rs_apply(&R, a->node, a->type, a->d, a->dl);
 			if (a->type == MSG_ACCESSORY_NOTIFY && a->dl >= 2) SB.n[M.b[a->node].sbnode].acc_aspect[a->d[0]] = a->d[1];    /* the node that notifies a new aspect answers the following MSG_ACCESSORY_GET with it */
 			sb_send(M.b[a->node].sbnode, a->type, a->d, a->dl); }
 		else { rs_apply(&R, -1, a->type, a->d, a->dl); sb_send_from(UNKNOWN_NODE, 0, a->type, a->d, a->dl); }
@@ -357,6 +367,8 @@ static void describe(const act_t *a, char *buf, size_t n) {
 	case A_SIGNAL: snprintf(buf, n, "bidib_set_signal(%s,%s)", a->s1, a->s2); break;
 	case A_CSDRIVE: snprintf(buf, n, "bidib_send_cs_drive(master, %s)", hx_hex(a->d, 9)); break;
 	case A_CSACC: snprintf(buf, n, "bidib_send_cs_accessory(master, %s)", hx_hex(a->d, 4)); break;
+	case A_LOSE: snprintf(buf, n, "node-lost notice for %s", M.b[a->node].id); break;
+	case A_TAKE: snprintf(buf, n, "new-node notice: %s logs in at the old address of %s", M.b[a->node].id, M.b[a->i1].id); break;
 	}
 }
 static act_t up(int node, uint8_t type, const uint8_t *d, int dl) { act_t a; memset(&a, 0, sizeof a); a.kind = A_UP; a.node = node; a.type = type; a.dl = dl; if (dl) memcpy(a.d, d, (size_t) dl); return a; }
@@ -495,6 +507,18 @@ static int g_unknown_sender(int k, case_t *c) {
 	if (k / n == 2 && (c->a[0].type == MSG_BM_OCC || c->a[0].type == MSG_BM_FREE || c->a[0].type == MSG_BM_MULTIPLE || c->a[0].type == MSG_BM_ADDRESS || c->a[0].type == MSG_BM_CONFIDENCE || c->a[0].type == MSG_BM_CURRENT)) c->a[0].node = B_BOOSTER2;
 	if (k / n == 2 && c->a[0].type == MSG_ACCESSORY_STATE) c->a[0].d[0] = 0x10;
 	c->na = 1; return 1; }
+/* the sender of a message is an address: after a board was lost, what arrives from its old address changes nothing — or belongs to
+ * the board that has logged in there since; a board that logged in elsewhere is reached at its new address */
+static int g_relogin(int k, case_t *c) {
+	act_t TO[] = { UP(B_OC1, MSG_BM_OCC, 0), UP(B_OC1, MSG_BM_MULTIPLE, 0, 8, 0x01), UP(B_OC1, MSG_BM_ADDRESS, 0, T1L, T1H), UP(B_OC1, MSG_BM_CURRENT, 0, 100), UP(B_OC1, MSG_BM_CONFIDENCE, 0, 1, 0), UP(B_OC1, MSG_ACCESSORY_STATE, 2, 0, 2, 1, 5), UP(B_OC1, MSG_ACCESSORY_STATE, 0x10, 1, 2, 0, 0), UP(B_OC1, MSG_LC_STAT, 0x23, 0x01, 1) };
+	act_t TL[] = { UP(B_LC1, MSG_ACCESSORY_STATE, 0x10, 1, 2, 0, 0), UP(B_LC1, MSG_ACCESSORY_NOTIFY, 0x10, 0, 2, 0, 0), UP(B_LC1, MSG_LC_STAT, 0x23, 0x01, 1), UP(B_LC1, MSG_LC_WAIT, 0x24, 0x01, 0x85), UP(B_LC1, MSG_BM_OCC, 0), UP(B_LC1, MSG_ACCESSORY_STATE, 2, 0, 2, 1, 5) };
+	int no = (int) (sizeof TO / sizeof TO[0]), nl = (int) (sizeof TL / sizeof TL[0]);
+	act_t lose_oc1 = {A_LOSE, B_OC1, 0, {0}, 0, NULL, NULL, 0}, lose_lc1 = {A_LOSE, B_LC1, 0, {0}, 0, NULL, NULL, 0}, take = {A_TAKE, B_LC1, 0, {0}, 0, NULL, NULL, B_OC1};
+	if (k < no) { c->a[0] = lose_oc1; c->a[1] = TO[k]; c->na = 2; return 1; } k -= no;
+	if (k < nl) { c->a[0] = lose_lc1; c->a[1] = TL[k]; c->na = 2; return 1; } k -= nl;
+	if (k < no) { c->a[0] = lose_oc1; c->a[1] = lose_lc1; c->a[2] = take; c->a[3] = TO[k]; c->na = 4; return 1; } k -= no;
+	if (k < nl) { c->a[0] = lose_oc1; c->a[1] = lose_lc1; c->a[2] = take; c->a[3] = TL[k]; c->na = 4; return 1; }
+	return 0; }
 static int g_cmd_speed(int k, case_t *c) {
 	if (k < 253) { c->a[0] = cmd(A_SPEED, "train1", NULL, k - 126); c->na = 1; return 1; } k -= 253;
 	static const int S2[8] = {0, 5, 0, -5, 0, 28, -126, 0};
@@ -532,7 +556,7 @@ static const part_t PARTS[] = {
 	{"BM_ADDRESS lists of 0..3 entries", g_address_lists}, {"BM_CONFIDENCE", g_confidence}, {"BM_CURRENT code/number", g_current}, {"BM_SPEED", g_speed}, {"BM_DYN_STATE", g_dyn},
 	{"BOOST_STAT", g_boost_stat}, {"BOOST_DIAGNOSTIC key/value", g_diag_fields}, {"BOOST_DIAGNOSTIC lists of 0..3 pairs", g_diag_lists}, {"CS_STATE", g_cs_state}, {"CS_DRIVE_ACK", g_drive_ack},
 	{"CS_ACCESSORY_ACK", g_acc_ack}, {"CS_DRIVE_MANUAL", g_drive_manual}, {"CS_ACCESSORY_MANUAL", g_acc_manual}, {"ACCESSORY_STATE/NOTIFY", g_acc_state}, {"LC_STAT/LC_WAIT", g_lc}, {"VENDOR (reverser)", g_vendor},
-	{"unknown or wrong sender", g_unknown_sender}, {"bidib_set_train_speed", g_cmd_speed}, {"bidib_set_train_peripheral", g_cmd_func}, {"bidib_switch_point/bidib_set_signal (DCC)", g_cmd_accessory},
+	{"unknown or wrong sender", g_unknown_sender}, {"sender address of a lost board / taken over by another board", g_relogin}, {"bidib_set_train_speed", g_cmd_speed}, {"bidib_set_train_peripheral", g_cmd_func}, {"bidib_switch_point/bidib_set_signal (DCC)", g_cmd_accessory},
 	{"bidib_send_cs_drive", g_cmd_csdrive}, {"bidib_send_cs_accessory", g_cmd_csacc},
 };
 #define NPARTS ((int) (sizeof PARTS / sizeof PARTS[0]))
